@@ -32,7 +32,7 @@ ASSUMPTIONS = ["items are hashable with lawful __eq__/__hash__ (tokens mapped to
                "operands are set, frozenset, list, tuple or another IndexedSet (generators only for update)"]
 TRUSTED = ["Model/C11_Model.v is hand-written; tied to boltons.setutils.IndexedSet by the correspondence run",
            "bisect_left (on a sorted list), sorted(), itertools.islice/chain, list and dict primitives are modelled by contract",
-           "harness/c11.py serialiser; the two 61-bit polynomial digests stand for the full lists between snapshots",
+           "harness/c11.py serialiser; the two 61-bit polynomial digests (multiplier 1000003, truncated to 61 bits) stand for the full lists between snapshots",
            "harness/translators/c11_consts.py (reads _COMPACTION_FACTOR and the 384 limit from the source)"]
 
 DG_MOD = 2305843009213693951
@@ -82,7 +82,7 @@ class Toks:
 def digest(toks):
     h = 7
     for t in toks:
-        h = (h * 1000003 + t + 1) % DG_MOD
+        h = (h * 1000003 + t + 1) & DG_MOD
     return h
 
 
@@ -628,13 +628,19 @@ def run_impl(case):
 # ---------------------------------------------------------------------------
 # rendering for Coq
 # ---------------------------------------------------------------------------
+def _n(n):
+    """nat numeral; nat_scope is the default scope of the case files, so no %nat suffix (parsing cost)"""
+    assert isinstance(n, int) and 0 <= n < 5000, n
+    return "%d" % n
+
+
 EXN = {"KeyError": "KeyError", "IndexError": "IndexError", "ValueError": "ValueError", "TypeError": "TypeError",
-       "NotAFreshIndexedSet": "(OtherExn 21%nat)", "WrongResultType": "(OtherExn 22%nat)",
-       "NotABool": "(OtherExn 23%nat)", "NotANat": "(OtherExn 24%nat)"}
+       "NotAFreshIndexedSet": "(OtherExn 21)", "WrongResultType": "(OtherExn 22)",
+       "NotABool": "(OtherExn 23)", "NotANat": "(OtherExn 24)"}
 
 
 def _toks(l):
-    return clist(cnat(t) for t in l)
+    return clist(_n(t) for t in l)
 
 
 def _oz(x):
@@ -648,11 +654,11 @@ def _opd(kind, order):
 def _op(op, orders):
     k = op[0]
     if k == "add":
-        return "Add %s" % cnat(op[1])
+        return "Add %s" % _n(op[1])
     if k == "remove":
-        return "Remove %s" % cnat(op[1])
+        return "Remove %s" % _n(op[1])
     if k == "discard":
-        return "Discard %s" % cnat(op[1])
+        return "Discard %s" % _n(op[1])
     if k == "pop":
         return "Pop %s" % _oz(op[1])
     if k == "clear":
@@ -674,13 +680,13 @@ def _op(op, orders):
     if k == "get":
         return "GetItem %s" % cZ(op[1])
     if k == "slice":
-        return "Slice %s %s %s" % (_oz(op[1]), _oz(op[2]), "None" if op[3] is None else "(Some %s)" % cnat(op[3]))
+        return "Slice %s %s %s" % (_oz(op[1]), _oz(op[2]), "None" if op[3] is None else "(Some %s)" % _n(op[3]))
     if k == "index":
-        return "Index %s" % cnat(op[1])
+        return "Index %s" % _n(op[1])
     if k == "count":
-        return "Count %s" % cnat(op[1])
+        return "Count %s" % _n(op[1])
     if k == "contains":
-        return "Contains %s" % cnat(op[1])
+        return "Contains %s" % _n(op[1])
     return {"len": "Len", "iter": "Iter", "reversed": "Reversed", "snap": "Snapshot"}[k]
 
 
@@ -691,13 +697,13 @@ def _ret(r):
     if t == "none":
         return "(Ok RNone)"
     if t == "item":
-        return "(Ok (RItem %s))" % cnat(r[1])
+        return "(Ok (RItem %s))" % _n(r[1])
     if t == "list":
         return "(Ok (RList %s))" % _toks(r[1])
     if t == "bool":
         return "(Ok (RBool %s))" % cbool(r[1])
     if t == "nat":
-        return "(Ok (RNat %s))" % cnat(r[1])
+        return "(Ok (RNat %s))" % _n(r[1])
     if t == "snap":
         return "(Ok (RSnap %s %s %s %s %s))" % (_toks(r[1]), _toks(r[2]), _toks(r[3]), _toks(r[4]), _toks(r[5]))
     raise AssertionError(r)
@@ -707,8 +713,13 @@ def to_coq(case, obs):
     steps = []
     assert len(obs["steps"]) == len(case["ops"])
     for op, ob in zip(case["ops"], obs["steps"]):
-        dg = "None" if "dg" not in ob else "(Some (%s, %s))" % (cN(ob["dg"][0]), cN(ob["dg"][1]))
-        steps.append("(%s, mkObs %s %s %s)" % (_op(op, ob["orders"]), _ret(ob["ret"]), cnat(ob["len"]), dg))
+        if "dg" not in ob:
+            dg = "None"
+        elif ob["dg"][0] == ob["dg"][1]:
+            dg = "(dd %s)" % cN(ob["dg"][0])
+        else:
+            dg = "(Some (%s, %s))" % (cN(ob["dg"][0]), cN(ob["dg"][1]))
+        steps.append("(%s, mkObs %s %s %s)" % (_op(op, ob["orders"]), _ret(ob["ret"]), _n(ob["len"]), dg))
     return "mkCase %s %s" % (cbool(case["digests"]), clist(steps))
 
 
@@ -738,7 +749,7 @@ def corrupt(case, obs):
     if turn == 2:
         for ob in reversed(steps):
             if "dg" in ob:
-                ob["dg"][0] = (ob["dg"][0] + 1) % DG_MOD
+                ob["dg"][0] = (ob["dg"][0] + 1) & DG_MOD
                 return bad
     steps[-1]["len"] += 1
     return bad
